@@ -91,6 +91,24 @@ Second generation (class GenR; Gen/CommitmentPolicyGen.v): functions over struct
                followed by `?` (`self.validate_commitment_tx(estate, ..)`, translated elsewhere): its answer is a
                parameter of type `trap (result unit)`; (ii) pure functions the caller lists
                (`PublicKey::from_secret_key`, `Secp256k1::signing_only`): uninterpreted function parameters.
+  added for Gen/SweepGen.v (the sweep validators):
+               `&dyn Trait` parameters (an identity) whose methods are *opaque methods*: uninterpreted function
+               parameters that take the receiver first (`wallet.allowlist_contains(s, p)` ->
+               `wallet_allowlist_contains wallet s p`); an opaque method that returns `Result<bool, foreign error>` is
+               inside the fragment only as `recv.m(args).map_err(|err| policy_error(tag, msg))?`:
+               `x <-? ok_or (wallet_can_spend wallet ..) tag` (the parameter answers `option bool`, None = the error);
+               the same for methods of foreign value types (`tx.lock_time.is_satisfied_by(h, t)`), foreign functions and
+               constants named by path (`Height::from_consensus(x)` -> `option`, `Time::MIN`, `Version::TWO`);
+               structs of a foreign crate declared to the translator by hand (rust-bitcoin's Transaction, TxIn, TxOut,
+               Sequence: compared with the crate's source when it is in the cargo registry), `x.0` of a tuple struct;
+               `transaction_format_err!(self, tag, fmt, args..)` = `return Err(transaction_format_error(format!(..)))`:
+               the macro ignores its object and tag; the error carries the tag transaction_format_error gives it (read
+               from policy/error.rs); as a statement `_ <-? early_err TAG`, and as the diverging arm of
+               `let x = match opt { Some(y) => value, None => transaction_format_err!(..) };`
+               (`x <-? (match o with Some y => Val (OkR value) | None => Val (ErrR TAG) end)`);
+               `v.get(i)` on a Vec<S> (vec_nth), `!b`, `for x in v.iter() { .. }` whose body assigns nothing (the
+               loop-carried state is the unit value), `const NAME: [u32; n] = [..];` of an impl block (hex literals),
+               `.to_vec()` on it, `v.contains(&x)` (vec_contains).
   refused    : a Rust binder whose name the generated text uses itself (prof, warn, policy, Val, t<digits>, gen_.., ..), a
                `let` that shadows a variable in scope, `return`, `else`
                branches of statements, `match`, `&mut`, closures anywhere else, struct literals, everything not listed.
@@ -305,6 +323,9 @@ class P:
                 # that could (calls of `&mut self` methods are refused): the parameter is only read
                 self.eat("mut")
                 self.saw_mut = True
+            if self.at("dyn"):
+                self.eat("dyn")
+                return "dyn:" + self.eat(kind="id")     # a trait object: its methods are parameters of the translation
             return self.type()
         if self.known is not None and self.at("("):
             self.eat("(")
@@ -607,6 +628,9 @@ class P:
             if self.at("mut"):
                 raise GenError("a `&mut` borrow is outside the fragment")
             return ("ref", self.unary())
+        if self.at("!"):
+            self.eat("!")
+            return ("not", self.unary())
         return self.postfix()
 
     def postfix(self):
@@ -616,6 +640,9 @@ class P:
                 if self.peek(1)[1] == ".":       # a range `a..b` lexes as `..`, never as two dots
                     break
                 self.eat(".")
+                if self.peek()[0] == "num" and self.known is not None:
+                    a = ("field", a, self.eat(kind="num"))       # x.0 : the field of a tuple struct
+                    continue
                 name = self.eat(kind="id")
                 if self.at("("):
                     self.eat("(")
@@ -686,6 +713,33 @@ class P:
             return ("bool", v)
         if v == "if":
             return self.if_expr()
+        if v == "match" and self.known is not None:
+            # match e { Some(x) => value, None => value } with expressions as arms
+            self.eat("match")
+            scrut = self.expr()
+            self.eat("{")
+            arms = {}
+            while not self.at("}"):
+                if self.at("None"):
+                    self.eat("None")
+                    key, var = "None", None
+                else:
+                    self.eat("Some")
+                    self.eat("(")
+                    var = self.eat(kind="id")
+                    self.eat(")")
+                    key = "Some"
+                self.eat("=>")
+                arm = self.expr()
+                if self.at(","):
+                    self.eat(",")
+                if key in arms:
+                    raise GenError("match with two %s arms" % key)
+                arms[key] = (var, arm)
+            self.eat("}")
+            if set(arms) != {"None", "Some"}:
+                raise GenError("only `match <option> { None => .., Some(x) => .. }` is inside the fragment")
+            return ("match_val", scrut, arms["None"][1], arms["Some"][0], arms["Some"][1])
         if k == "id":
             self.eat()
             while self.at("::"):          # a path: its last segment, qualified by an integer type if there is one
@@ -1504,6 +1558,7 @@ def enum_variants(src, name):
 def use_table(src):
     """name -> module path for the flat `use a::b::{x, y};` / `use a::b::x;` items of a file"""
     out = {}
+    src = "\n" + src
     for m in re.finditer(r"\nuse\s+([A-Za-z_][\w:]*)::\{([^{}]*)\};", src):
         for n in m.group(2).split(","):
             n = n.strip()
@@ -1537,6 +1592,10 @@ class GenR(Gen):
         self.coq_fn = {}                  # (owner, name) -> Gallina name of a method translated into another file
         self.opaque_fns = {}              # path -> (parameter name, [argument types], result type): uninterpreted pure fns
         self.lazy_helpers = ()            # methods whose results are only handed to logging macros
+        self.opaque_methods = {}          # (receiver type, method) -> (parameter name, [argument types], result type):
+                                          #   methods of trait objects / foreign types, uninterpreted; the receiver is
+                                          #   the first argument of the parameter
+        self.format_tag = None            # the tag transaction_format_error gives its errors (read from policy/error.rs)
 
     def coq_type(self, t):
         if t in WIDTH or t == "id":
@@ -1555,6 +1614,14 @@ class GenR(Gen):
             return t.split(":", 1)[1]
         if t == "result:id":
             return "(result N)"
+        if t.startswith("dyn:") or t.startswith("ext:"):
+            return "N"                        # a trait object / a foreign value: an identity
+        if t == "vec_u32":
+            return "(list N)"
+        if t == "res_opaque:bool":
+            return "(option bool)"            # Result<bool, foreign error>: None = Err
+        if t.startswith("opt_struct:"):
+            return "(option %s)" % self.coq_type("struct:" + t[11:])
         if t == "comp:result_unit":
             return "(trap (result unit))"
         if t.startswith("fn:"):
@@ -1570,7 +1637,8 @@ class GenR(Gen):
 
     def binder(self, x, code=None, env=None):
         if (x in RESERVED and not (x == "policy" and code == "policy")) or re.match(r"^(t\d+|gen_.*|mk_.*)$", x) \
-                or any(x == pn for _, _, pn, _ in self.opaque) or any(x == v[0] for v in self.opaque_fns.values()):
+                or any(x == pn for _, _, pn, _ in self.opaque) or any(x == v[0] for v in self.opaque_fns.values()) \
+                or any(x == v[0] for v in self.opaque_methods.values()):
             raise GenError("the name %s is used by the generated text itself: binding it is outside the fragment" % x)
         if not re.match(r"^[a-z_][a-z0-9_]*$", x):
             raise GenError("binder %s is outside the fragment" % x)
@@ -1582,7 +1650,7 @@ class GenR(Gen):
     def tagged(self):
         return self.cur["ret"] in ("result_unit", "result:id")
 
-    PRINTABLE = Gen.PRINTABLE + ("id", "opt_id")     # {} / {:?} of a key, a point, a commitment content: assumed not to panic
+    PRINTABLE = Gen.PRINTABLE + ("id", "opt_id", "vec_u32", "ext:LockTime", "ext:Version")   # {} / {:?} of a foreign value: assumed not to panic
     LOGGING = ("debug", "trace", "info", "warn", "dbgvals", "policy_log")
 
     def proj(self, sn, f, c):
@@ -1603,10 +1671,21 @@ class GenR(Gen):
             return [], '"%s"%%string' % body, "str"
         if k == "ref":
             return self.expr(e[1], env, want)
+        if k == "not":
+            b, c, t = self.expr(e[1], env)
+            if t != "bool":
+                raise GenError("`!` on a %s is outside the fragment" % t)
+            return b, "(negb %s)" % c, "bool"
         if k == "var":
             x = e[1]
             if x in env:
                 return [], x, env[x]
+            if x in self.opaque_fns and not self.opaque_fns[x][1]:
+                pname, _, rty = self.opaque_fns[x]
+                self.use_opaque(pname, rty)
+                return [], pname, rty             # a constant of a foreign crate: a parameter
+            if x in self.consts and isinstance(self.consts[x][1], list):
+                return [], "[%s]" % "; ".join("%d" % v_ for v_ in self.consts[x][1]), self.consts[x][0]
             if "::" in x and x.split("::")[0] in self.enums:
                 en, v = x.split("::")
                 if v not in self.enums[en]:
@@ -1699,6 +1778,46 @@ class GenR(Gen):
                 if not tv.startswith("vec:"):
                     raise GenError("len of a %s" % tv)
                 return b, "(len_of %s)" % v, "usize"
+            if name == "get" and len(args) == 1:
+                b, v, tv = self.expr(recv, env)
+                if tv.startswith("vec:"):
+                    b2, i, ti = self.expr(args[0], env, "usize")
+                    if ti != "usize":
+                        raise GenError(".get(..) with an index of type %s" % ti)
+                    return b + b2, "(vec_nth %s %s)" % (v, i), "opt_struct:" + tv[4:]
+                raise GenError(".get(..) on a %s is outside the fragment" % tv)
+            if name == "to_vec" and not args:
+                b, v, tv = self.expr(recv, env)
+                if tv != "vec_u32":
+                    raise GenError(".to_vec() on a %s is outside the fragment" % tv)
+                return b, v, tv
+            if name == "contains" and len(args) == 1:
+                b, v, tv = self.expr(recv, env)
+                b2, x_, tx_ = self.expr(args[0], env, "u32")
+                if tv != "vec_u32" or tx_ != "u32":
+                    raise GenError(".contains(..) on a %s with a %s is outside the fragment" % (tv, tx_))
+                return b + b2, "(vec_contains %s %s)" % (v, x_), "bool"
+            if not (recv == ("var", "self") and self.owner == self.validator):
+                save_ = self.tmp
+                b, v, tv = self.expr(recv, env)
+                if (tv, name) in self.opaque_methods:
+                    pname, atys, rty = self.opaque_methods[(tv, name)]
+                    if tv.startswith("dyn:") and (recv[0] != "var" or recv[1] in self.rebound):
+                        raise GenError("%s.%s: the receiver is not the parameter of type %s" % (recv, name, tv))
+                    if len(args) != len(atys):
+                        raise GenError(".%s(..) with %d arguments" % (name, len(args)))
+                    bs, cs = list(b), [v]
+                    for a_, at in zip(args, atys):
+                        b_, c_, t_ = self.expr(a_, env, at)
+                        if t_ != at:
+                            raise GenError("argument of .%s(..): %s given, %s expected" % (name, t_, at))
+                        bs += b_
+                        cs.append(c_)
+                    if rty.startswith("res_opaque:"):
+                        raise GenError(".%s(..): a Result that is not followed by .map_err(|e| policy_error(..))? is outside the fragment" % name)
+                    self.use_opaque(pname, "fn:%s->%s" % (",".join([tv] + atys), rty))
+                    return bs, "(%s)" % " ".join([pname] + cs), rty
+                self.tmp = save_
             if name in ("as_ref", "clone") and not args:
                 b, v, tv = self.expr(recv, env)
                 if tv not in ("id", "opt_id"):
@@ -1746,11 +1865,11 @@ class GenR(Gen):
         if k == "bin" and e[1] in ("==", "!="):
             save = self.tmp
             b1, a, ta = self.expr(e[2], env)
-            if ta in ("id", "opt_id"):
+            if ta in ("id", "opt_id") or ta.startswith("ext:"):
                 b2, c, tc = self.expr(e[3], env)
                 if tc != ta:
                     raise GenError("%s between %s and %s" % (e[1], ta, tc))
-                code = "(%s =? %s)" % (a, c) if ta == "id" else "(opt_id_eqb %s %s)" % (a, c)
+                code = "(opt_id_eqb %s %s)" % (a, c) if ta == "opt_id" else "(%s =? %s)" % (a, c)
                 return b1 + b2, code if e[1] == "==" else "(negb %s)" % code, "bool"
             if ta.startswith("enum:"):
                 b2, c, tc = self.expr(e[3], env)
@@ -1815,6 +1934,38 @@ class GenR(Gen):
             raise GenError("`?` after an update of a `&mut` parameter is outside the fragment")
         if not self.tagged():
             raise GenError("`?` in a function that does not return Result<(), _>")
+        if inner[0] == "mcall" and inner[2] == "map_err" and len(inner[3]) == 1 and inner[3][0][0] == "closure" \
+                and len(inner[3][0][1]) == 1 and inner[1][0] == "mcall":
+            # <receiver>.m(args).map_err(|err| policy_error(tag, message))? for an uninterpreted method m that returns
+            # Result<bool, foreign error>: the error is replaced by a policy error with that tag (no filter)
+            clo, call = inner[3][0], inner[1]
+            body = clo[2]
+            if body[0] == "block" and not body[1] and body[2] is not None:
+                body = body[2]
+            if body[0] == "call" and body[1] == "policy_error" and len(body[2]) == 2 and call[1] != ("var", "self"):
+                save_ = self.tmp
+                b, v, tv = self.expr(call[1], env)
+                if (tv, call[2]) in self.opaque_methods and self.opaque_methods[(tv, call[2])][2].startswith("res_opaque:"):
+                    pname, atys, rty = self.opaque_methods[(tv, call[2])]
+                    if tv.startswith("dyn:") and (call[1][0] != "var" or call[1][1] in self.rebound):
+                        raise GenError("%s.%s: the receiver is not the parameter of type %s" % (call[1], call[2], tv))
+                    if len(call[3]) != len(atys):
+                        raise GenError(".%s(..) with %d arguments" % (call[2], len(call[3])))
+                    bs, cs = list(b), [v]
+                    for a_, at in zip(call[3], atys):
+                        b_, c_, t_ = self.expr(a_, env, at)
+                        if t_ != at:
+                            raise GenError("argument of .%s(..): %s given, %s expected" % (call[2], t_, at))
+                        bs += b_
+                        cs.append(c_)
+                    tag = self.tag_code(body[2][0], env)
+                    env_m = dict(env)
+                    env_m[clo[1][0]] = "id"           # the foreign error, only formatted
+                    self.message_ok(body[2][1], env_m)
+                    self.use_opaque(pname, "fn:%s->%s" % (",".join([tv] + atys), rty))
+                    x = self.fresh()
+                    return bs + [(x, "ok_or (%s) %s" % (" ".join([pname] + cs), tag), "tryR")], x, rty.split(":", 1)[1]
+                self.tmp = save_
         if inner[0] == "mcall" and inner[2] == "map_err":
             # .map_err(|ve| ve.prepend_msg(<message>)) : prepend_msg keeps the tag (checked in policy/error.rs)
             a = inner[3]
@@ -1926,6 +2077,43 @@ class GenR(Gen):
                     raise GenError("a debugging guard bound to a pattern is outside the fragment")
                 self.guards.add(x)
                 return self.stmts(rest, {a: b for a, b in env.items() if a != x}, k)
+            if isinstance(x, str) and e[0] == "match_val":
+                # let x = match opt { Some(y) => value, None => transaction_format_err!(..) };  (or the arms swapped):
+                # one arm has the value, the other leaves the function with an error
+                if not self.tagged() or self.pure or ty is not None:
+                    raise GenError("a match with a diverging arm outside the body of a function that returns Result")
+                b, c, t = self.expr(e[1], env)
+                if not (t.startswith("opt_struct:") or t == "opt_id"):
+                    raise GenError("match on a %s is outside the fragment" % t)
+                inner_t = "struct:" + t[11:] if t.startswith("opt_struct:") else "id"
+                env_s = dict(env)
+                env_s[self.binder(e[3], env=env)] = inner_t
+                self.rebound.add(e[3])
+                box = {}
+
+                def arm(ex, env_a):
+                    if ex[0] == "macro" and ex[1] == "transaction_format_err":
+                        if self.format_tag is None or len(ex[2]) < 3:
+                            raise GenError("transaction_format_err! needs (self, tag, format string, ..)")
+                        fb = self.fmt_arg_binds(ex[2][2:], env_a)
+                        return self.emit_binds(fb, "Val (ErrR \"%s\"%%string)" % self.format_tag), None
+                    self.pure += 1
+                    try:
+                        b_, c_, t_ = self.expr(ex, env_a)
+                    finally:
+                        self.pure -= 1
+                    return self.emit_binds(b_, "Val (OkR %s)" % c_), t_
+                none_t, tn = arm(e[2], env)
+                some_t, ts = arm(e[4], env_s)
+                if (tn is None) == (ts is None):
+                    raise GenError("a match used as a value needs exactly one arm with a value and one that leaves the function")
+                tv_ = tn or ts
+                self.binder(x, env=env)
+                self.rebound.add(x)
+                env2 = dict(env)
+                env2[x] = tv_
+                return self.emit_binds(b, "%s <-? (match %s with\n| None => (%s)\n| Some %s => (%s)\nend) ;;\n%s" % (
+                    x, c, none_t, e[3], some_t, self.stmts(rest, env2, k)))
             if not isinstance(x, str):
                 b, c, t = self.expr(e, env)
                 parts = t[6:].split(",") if t.startswith("tuple:") else []
@@ -1965,6 +2153,18 @@ class GenR(Gen):
             if e[0] == "macro" and e[1] in self.LOGGING:
                 self.logging_ok(e, env)
                 return self.stmts(rest, env, k)      # logging: no effect on the state
+            if e[0] == "macro" and e[1] == "transaction_format_err":
+                # return Err(transaction_format_error(format!(..))) : object and tag arguments are ignored by the macro,
+                # the error carries the tag that transaction_format_error gives it; the rest is not run
+                if not self.tagged() or self.pure or self.format_tag is None:
+                    raise GenError("transaction_format_err! outside the body of a function that returns Result")
+                if getattr(self, "updated", False):
+                    raise GenError("an error after an update of a `&mut` parameter is outside the fragment")
+                if len(e[2]) < 3:
+                    raise GenError("transaction_format_err! needs (self, tag, format string, ..)")
+                fb = self.fmt_arg_binds(e[2][2:], env)
+                x = self.fresh()
+                return self.emit_binds(fb, "%s <-? early_err \"%s\"%%string ;;\n%s" % (x, self.format_tag, self.stmts(rest, env, k)))
             if e[0] == "macro" and e[1] == "policy_err":
                 args = e[2]
                 if not self.tagged() or self.pure:
@@ -2072,8 +2272,19 @@ class GenR(Gen):
             if not tv.startswith("vec:"):
                 raise GenError("a loop over a %s is outside the fragment" % tv)
             carried = self.assigned2(body)
+            if not carried:
+                # a loop that only checks: the loop-carried state is the unit value
+                env_b = dict(env)
+                env_b[self.binder(var, env=env)] = "struct:" + tv[4:]
+                self.rebound.add(var)
+                self.depth += 1
+                inner = self.stmts(body, env_b, lambda e2: "Val (OkR tt)")
+                self.depth -= 1
+                x = self.fresh()
+                loop = "fold_r (fun _ %s =>\n%s) %s tt" % (var, inner, v)
+                return self.emit_binds(b, "%s <-? %s ;;\n%s" % (x, loop, self.stmts(rest, env, k)))
             if len(carried) != 1 or carried[0] not in env:
-                raise GenError("a loop that does not assign exactly one variable of the enclosing block is outside the fragment")
+                raise GenError("a loop that assigns more than one variable of the enclosing block is outside the fragment")
             env_b = dict(env)
             env_b[self.binder(var, env=env)] = "struct:" + tv[4:]
             self.rebound.add(var)
@@ -2366,6 +2577,167 @@ def _generate_enforcement_rules(repo):
                            "warn (the policy filter)"]}
 
 
+
+def policy_decls(core):
+    """the declarations Gen/CommitmentPolicyGen.v is generated from (shared with the files that use its records)"""
+    rd = lambda *p: open(os.path.join(core, *p)).read()
+    sv, ch, tx, va = rd("policy", "simple_validator.rs"), rd("channel.rs"), rd("tx", "tx.rs"), rd("policy", "validator.rs")
+    known = {"CommitmentType": "enum:CommitmentType", "HTLCInfo2": "struct:HTLCInfo2",
+             "CommitmentInfo2": "struct:CommitmentInfo2", "ChannelSetup": "struct:ChannelSetup",
+             "ChainState": "struct:ChainState", "SimplePolicy": "struct:SimplePolicy"}
+    struct_src = [("HTLCInfo2", tx, "tx/tx.rs"), ("CommitmentInfo2", tx, "tx/tx.rs"), ("ChannelSetup", ch, "channel.rs"),
+                  ("ChainState", va, "policy/validator.rs"), ("SimplePolicy", sv, "policy/simple_validator.rs")]
+    structs = {n: struct_fields(src, n, skip_unknown=True, known=known) for n, src, _ in struct_src}
+    return known, structs, struct_src
+
+
+# rust-bitcoin's transaction types, as far as the translated functions read them.  They are declared here by hand (the
+# crate is not part of /repo); when the source of the locked version is in the cargo registry the declaration is compared
+# with it.
+BITCOIN_STRUCTS = {
+    "Transaction": [("version", "ext:Version"), ("lock_time", "ext:LockTime"), ("input", "vec:TxIn"), ("output", "vec:TxOut")],
+    "TxIn": [("sequence", "struct:Sequence")],
+    "Sequence": [("0", "u32")],
+    "TxOut": [("value", "ext:Amount"), ("script_pubkey", "id")],
+}
+
+
+def bitcoin_crosscheck(repo):
+    lock = open(os.path.join(repo, "Cargo.lock")).read()
+    m = re.search(r'name = "bitcoin"\nversion = "([^"]+)"', lock)
+    if not m:
+        raise GenError("Cargo.lock: no bitcoin crate")
+    import glob
+    hits = glob.glob(os.path.expanduser("~/.cargo/registry/src/*/bitcoin-%s/src/blockdata/transaction.rs" % m.group(1)))
+    if not hits:
+        return "bitcoin %s: source not in the cargo registry, hand declaration not compared" % m.group(1)
+    src = re.sub(r"\s+", " ", open(hits[0]).read())
+    for pat in ("pub version: Version,", "pub lock_time: absolute::LockTime,", "pub input: Vec<TxIn>,", "pub output: Vec<TxOut>,",
+                "pub sequence: Sequence,", "pub value: Amount,", "pub script_pubkey: ScriptBuf,", "pub struct Sequence(pub u32);",
+                "pub struct Version(pub i32);"):
+        if pat not in src:
+            raise GenError("bitcoin %s: `%s` not found in blockdata/transaction.rs: the hand declaration is stale" % (m.group(1), pat))
+    return "bitcoin %s: hand declaration agrees with blockdata/transaction.rs" % m.group(1)
+
+
+def array_consts(src, impl):
+    """`const NAME: [u32; n] = [..];` inside `impl <impl> { .. }`"""
+    bl = blank(src)
+    out = {}
+    for im in re.finditer(r"\nimpl %s\s*\{" % re.escape(impl), bl):
+        lo = im.end() - 1
+        hi = match_brace(bl, lo)
+        for m in re.finditer(r"\n\s*const ([A-Z_][A-Z0-9_]*)\s*:\s*\[u32;\s*(\d+)\]\s*=\s*\[([^\]]*)\]\s*;", src[lo:hi]):
+            vals = []
+            for part in m.group(3).split(","):
+                part = part.strip()
+                if not part:
+                    continue
+                mm = re.match(r"^(0x[0-9a-fA-F_]+|[0-9][0-9_]*?)(?:_?u32)?$", part)
+                if not mm:
+                    raise GenError("constant %s: element %r is outside the fragment" % (m.group(1), part))
+                vals.append(int(mm.group(1).replace("_", ""), 0))
+            if len(vals) != int(m.group(2)) or any(v >= 2 ** 32 for v in vals):
+                raise GenError("constant %s: %d elements declared, %d read" % (m.group(1), int(m.group(2)), len(vals)))
+            out[m.group(1)] = vals
+    return out
+
+
+def generate_sweep(repo):
+    try:
+        return _generate_sweep(repo)
+    except (IndexError, KeyError, ValueError, TypeError, AttributeError, RecursionError, OSError) as e:
+        raise GenError("the source could not be read (%s: %s)" % (type(e).__name__, e))
+
+
+def _generate_sweep(repo):
+    """Gen/SweepGen.v: validate_sweep and the sweep validators built on it.  ChannelSetup / ChainState are the records of
+    Gen/CommitmentPolicyGen.v (generate_commitment_policy must run in the same pass)."""
+    core = os.path.join(repo, "vls-core", "src")
+    rd = lambda *p: open(os.path.join(core, *p)).read()
+    sv, wl = rd("policy", "simple_validator.rs"), rd("wallet.rs")
+    check_error_helpers(core)
+    err = re.sub(r"\s+", " ", rd("policy", "error.rs"))
+    m = re.search(r'fn transaction_format_error\(msg: impl Into<String>\) -> ValidationError \{ ValidationError \{ tag: "([a-z-]+)"\.to_string\(\), '
+                  r'kind: TransactionFormat\(msg\.into\(\)\),', err)
+    if not m:
+        raise GenError("policy/error.rs: transaction_format_error no longer builds ValidationError { tag: <literal>, kind: TransactionFormat(..) }")
+    format_tag = m.group(1)
+    if not re.search(r"macro_rules! transaction_format_err \{ \(\$obj:expr, \$tag:tt, \$\(\$arg:tt\)\*\) => \( return Err\(transaction_format_error\(format!\( "
+                     r"\"\{\}: \{\}\", short_function!\(\), format!\(\$\(\$arg\)\*\) \)\)\) \) \}", err):
+        raise GenError("policy/error.rs: transaction_format_err! is no longer `return Err(transaction_format_error(format!(..)))`")
+    uses = use_table(sv)
+    for n, mod in {"Height": "bitcoin::absolute", "Time": "bitcoin::absolute", "Version": "bitcoin::transaction",
+                   "Transaction": "bitcoin", "ChannelSetup": "crate::channel", "ChainState": "super::validator",
+                   "Wallet": "crate::wallet", "policy_error": "super::error"}.items():
+        if uses.get(n) != mod:
+            raise GenError("simple_validator.rs: %s is expected from %s, found %s" % (n, mod, uses.get(n)))
+    wsrc = re.sub(r"\s+", " ", wl)
+    if not re.search(r"fn can_spend\( &self, child_path: &DerivationPath, script_pubkey: &ScriptBuf, \) -> Result<bool, Status>;", wsrc) \
+            or "fn allowlist_contains(&self, script_pubkey: &ScriptBuf, path: &DerivationPath) -> bool;" not in wsrc:
+        raise GenError("wallet.rs: trait Wallet no longer declares can_spend(path, script) -> Result<bool, Status> and "
+                       "allowlist_contains(script, path) -> bool")
+    crosscheck = bitcoin_crosscheck(repo)
+    known_cp, structs_cp, _ = policy_decls(core)
+    known = dict(known_cp)
+    known.update({"Transaction": "struct:Transaction", "TxIn": "struct:TxIn", "TxOut": "struct:TxOut", "Sequence": "struct:Sequence",
+                  "Version": "path", "Time": "path", "Height": "path", "SimpleValidator": "path"})
+    structs = {"ChannelSetup": structs_cp["ChannelSetup"], "ChainState": structs_cp["ChainState"]}
+    structs.update(BITCOIN_STRUCTS)
+    consts = {}
+    tab = const_table(sv)
+    if "MAX_CHAIN_LAG" not in tab:
+        raise GenError("constant MAX_CHAIN_LAG not found in policy/simple_validator.rs")
+    consts["MAX_CHAIN_LAG"] = tab["MAX_CHAIN_LAG"]
+    arrays = array_consts(sv, "SimpleValidator")
+    for n in ("ANCHOR_SEQS", "NON_ANCHOR_SEQS"):
+        if n not in arrays:
+            raise GenError("constant SimpleValidator::%s not found" % n)
+        consts["SimpleValidator::" + n] = ("vec_u32", arrays[n])
+    plan = [("validate_sweep", "impl SimpleValidator"), ("validate_delayed_sweep", "impl Validator for SimpleValidator"),
+            ("validate_justice_sweep", "impl Validator for SimpleValidator")]
+    methods, texts = {}, {}
+    for n, header in plan:
+        texts[n] = method_source(sv, None, n, header=header)
+        methods[("SimpleValidator", n)] = P(lex(texts[n]), known).fn()
+    g = GenR(structs, {}, methods, consts, {}, [], "SimpleValidator", None, known)
+    g.coq_struct = {"ChannelSetup": ("CommitmentPolicyGen.ChannelSetup", "CommitmentPolicyGen.ChannelSetup"),
+                    "ChainState": ("CommitmentPolicyGen.ChainState", "CommitmentPolicyGen.ChainState")}
+    g.format_tag = format_tag
+    g.opaque_methods = {("dyn:Wallet", "can_spend"): ("wallet_can_spend", ["id", "id"], "res_opaque:bool"),
+                        ("dyn:Wallet", "allowlist_contains"): ("wallet_allowlist_contains", ["id", "id"], "bool"),
+                        ("ext:LockTime", "is_satisfied_by"): ("lock_time_is_satisfied_by", ["id", "id"], "bool")}
+    g.opaque_fns = {"Height::from_consensus": ("height_from_consensus", ["u32"], "opt_id"),
+                    "Time::MIN": ("time_min", [], "id"), "Version::TWO": ("version_two", [], "ext:Version")}
+    out = []
+    for n in ("Sequence", "TxIn", "TxOut", "Transaction"):
+        out.append("(* rust-bitcoin's %s, the fields read here (declared in tools/gen_rustfn.py; %s) *)\nRecord %s := mk_%s {\n%s\n}." % (
+            n, crosscheck, n, n, ";\n".join("  %s_%s : %s" % (n, f, g.coq_type(t)) for f, t in BITCOIN_STRUCTS[n])))
+    for n, header in plan:
+        out.append("(* %s (policy/simple_validator.rs, `%s`)\n%s *)\n%s" % (n, header, "\n".join(
+            "   " + l for l in texts[n].strip().replace("(*", "( *").replace("*)", "* )").splitlines()),
+            g.method2("SimpleValidator", methods[("SimpleValidator", n)])))
+    text = ("(** GENERATED by tools/gen_rustfn.py - do not edit.  Statement-by-statement translation of\n"
+            "      SimpleValidator::validate_sweep, ::validate_delayed_sweep, ::validate_justice_sweep (policy/simple_validator.rs)\n"
+            "    with MAX_CHAIN_LAG = %d, ANCHOR_SEQS = %s, NON_ANCHOR_SEQS = %s read from that file.  ChannelSetup and ChainState are\n"
+            "    the records of Gen/CommitmentPolicyGen.v; rust-bitcoin's Transaction / TxIn / TxOut / Sequence are records of the\n"
+            "    fields read.  Uninterpreted parameters: the wallet's can_spend (None = its error) and allowlist_contains, rust-bitcoin's\n"
+            "    LockTime::is_satisfied_by, Height::from_consensus (None = its error), Time::MIN, Version::TWO, and the policy filter.\n"
+            "    transaction_format_err!(..) = return Err(transaction_format_error(..)): the error carries the tag \"%s\"\n"
+            "    whatever tag the macro is given (policy/error.rs).  The meaning of every construct is in Base/Rust.v. *)\n"
+            "From Coq Require Import String.\nFrom VLS Require Export Base.Rust.\nFrom VLS Require Gen.CommitmentPolicyGen.\n\n" % (
+                consts["MAX_CHAIN_LAG"][1], arrays["ANCHOR_SEQS"], arrays["NON_ANCHOR_SEQS"], format_tag)
+            + "\n\n".join(out) + "\n")
+    outp = os.path.join(ROOT, "coq", "theories", "Gen", "SweepGen.v")
+    if not os.path.exists(outp) or open(outp).read() != text:
+        open(outp, "w").write(text)
+    return {"translated": ["SimpleValidator::" + n for n, _ in plan], "constants": {"MAX_CHAIN_LAG": consts["MAX_CHAIN_LAG"][1],
+            "ANCHOR_SEQS": arrays["ANCHOR_SEQS"], "NON_ANCHOR_SEQS": arrays["NON_ANCHOR_SEQS"]}, "format_error_tag": format_tag,
+            "rust_bitcoin": crosscheck,
+            "parameters": ["wallet_can_spend", "wallet_allowlist_contains", "lock_time_is_satisfied_by", "height_from_consensus",
+                           "time_min", "version_two", "warn (the policy filter)"]}
+
+
 if __name__ == "__main__":
     repo = sys.argv[1] if len(sys.argv) > 1 else "/repo"
     print(generate_velocity(repo))
@@ -2375,3 +2747,4 @@ if __name__ == "__main__":
     print(generate_txutil(repo))
     print(generate_commitment_policy(repo))
     print(generate_enforcement_rules(repo))
+    print(generate_sweep(repo))
